@@ -10,6 +10,8 @@ from fractions import Fraction
 
 import numpy as np
 
+from hyverif.core import digest
+
 ID = "C04"
 SHARDS = {"quick": 8, "thorough": 16}
 BUDGET = {"quick": 300, "thorough": 1800}
@@ -272,6 +274,25 @@ def run_scores_case(ctx, case):
                       lambda: {"with_trans": repr(a), "on_transformed": repr(b)})
     if nontriv:
         ctx.nontrivial("scores", obs, sim, repr(case["trans"]), excl)
+    # ---- the same numbers in another memory layout / container / exact dtype
+    prng = np.random.default_rng(digest(obs, sim) % 2 ** 32)
+
+    def allscores(o, s_):
+        out = [call(m.nse, o, s_, trans, excl), call(m.kge, o, s_, trans, excl)] + \
+            [call(m.bias, o, s_, trans, excl, t_) for t_ in ("standard", "log")]
+        for v in out:
+            if isinstance(v, Exception):
+                raise v
+        return out
+    try:
+        basev = allscores(obs.copy(), sim.copy())
+    except Exception:
+        basev = None
+    if basev is not None:
+        # (numpy sums strided data in another order: tolerance follows the magnitudes)
+        ctx.presentations("scores", allscores, [obs, sim], basev, case, prng, rtol=1e-9,
+                          n=1, atol=1e-10 * c * (1 + float(np.max(np.abs(tov))) +
+                                                 float(np.max(np.abs(tsv)))))
 
 
 def run_corr_case(ctx, case):
@@ -341,6 +362,23 @@ def run_corr_case(ctx, case):
                           "corr|excludenull", case,
                           lambda: {"got": repr(got), "ref": ref,
                                    "rows_removed": int((~okr).sum())})
+    # the same numbers in another memory layout / container / exact dtype
+    prng = np.random.default_rng(digest(obs, ens) % 2 ** 32)
+
+    def allcorr(o, e_):
+        out = [call(m.corr, o, e_, trans, False, st_, ty_)
+               for st_ in ("mean", "median") for ty_ in ("Pearson", "Spearman")]
+        for v in out:
+            if isinstance(v, Exception):
+                raise v
+        return out
+    try:
+        basev = allcorr(obs.copy(), ens.copy())
+    except Exception:
+        basev = None
+    if basev is not None:
+        ctx.presentations("corr", allcorr, [obs, ens], basev, case, prng, rtol=1e-9, n=1,
+                          atol=1e-9 * ((cond(to) or 1e3) + 1))
     # commutes with the transform
     ident = T().Identity()
     a = call(m.corr, obs, ens, trans, False, "mean", "Pearson")
